@@ -4,6 +4,7 @@ import json
 import math
 from fractions import Fraction
 
+import casadi as ca
 import numpy as np
 
 from .. import core, gp
@@ -323,6 +324,121 @@ def gen_shift_case(rng):
 
 
 # ---------------------------------------------------------------------------------------------------
+# ---------------------------------------------------------------------------------------------------
+# C. ill-formed goals handed to optimize() of every configuration: rejected before any solver exists
+# ---------------------------------------------------------------------------------------------------
+REJECT_DEFECTS = ["target_above_range", "target_below_range", "nominal_zero", "nominal_negative", "weight_zero",
+                  "weight_negative", "critical_minimisation", "non_monotone_min", "non_monotone_max",
+                  "vector_tmax_outside", "vector_tmin_outside", "vector_tmax_series_outside"]
+REJECT_CONTROLS = ["ok_scalar", "ok_vector"]
+
+
+def reject_cases():
+    out = []
+    for variant in ("multi", "multi_keep_soft", "single_append", "single_update"):
+        for path in (True, False):
+            for d in REJECT_DEFECTS + REJECT_CONTROLS:
+                if "vector" in d and variant == "multi":
+                    continue            # vector goals need keep_soft_constraints
+                if d == "vector_tmax_series_outside" and not path:
+                    continue
+                if d in REJECT_CONTROLS and not (path or variant in ("multi", "single_append")):
+                    continue
+                out.append({"k": "reject", "variant": variant, "path": path, "defect": d})
+    return out
+
+
+def run_reject(c):
+    from rtctools.optimization.goal_programming_mixin_base import Goal
+    from rtctools.optimization.timeseries import Timeseries
+
+    calls = []
+
+    def counting(name, plugin, nlp, opts):
+        calls.append(name)
+        opts = dict(opts)
+        ip = dict(opts.get("ipopt", {}))
+        ip.update({"print_level": 0, "sb": "yes"})
+        opts["ipopt"] = ip
+        opts["print_time"] = False
+        return ca.nlpsol(name, plugin, nlp, opts)
+
+    times = [0, 1, 2]
+    p, snaps, goals_all = gp.build({"times": times, "E": 1, "variant": c["variant"], "goals": [], "options": {}}, solver=counting)
+    path, d = c["path"], c["defect"]
+
+    def mk(prio=1, fk=None, vector=False, **kw):
+        class G(Goal):
+            size = 2 if vector else 1
+
+            def function(self, op, em):
+                def st(nm):
+                    return op.state(nm) if path else op.state_at(nm, 1.0, em)
+                return ca.vertcat(st("y"), st("z")) if vector else st("y")
+        g = G()
+        g.priority = prio
+        g.order = 2
+        if fk:
+            g.function_key = fk
+        for k, v in kw.items():
+            setattr(g, k, v)
+        g._spec = {"path": path}
+        return g
+    rng_s = (-12.0, 12.0)
+    rng_v = (np.array([-12.0, -20.0]), np.array([12.0, 20.0]))
+    if d == "target_above_range":
+        gl = [mk(function_range=rng_s, target_max=13.0)]
+    elif d == "target_below_range":
+        gl = [mk(function_range=rng_s, target_min=-13.0)]
+    elif d == "nominal_zero":
+        gl = [mk(function_range=rng_s, target_max=5.0, function_nominal=0.0)]
+    elif d == "nominal_negative":
+        gl = [mk(function_nominal=-2.0)]
+    elif d == "weight_zero":
+        gl = [mk(function_range=rng_s, target_max=5.0, weight=0.0)]
+    elif d == "weight_negative":
+        gl = [mk(function_range=rng_s, target_min=-5.0, weight=-1.0)]
+    elif d == "critical_minimisation":
+        gl = [mk(critical=True)]
+    elif d == "non_monotone_min":
+        gl = [mk(1, "q", function_range=rng_s, target_min=-2.0), mk(2, "q", function_range=rng_s, target_min=-4.0)]
+    elif d == "non_monotone_max":
+        gl = [mk(1, "q", function_range=rng_s, target_max=3.0), mk(2, "q", function_range=rng_s, target_max=5.0)]
+    elif d == "vector_tmax_outside":
+        gl = [mk(vector=True, function_range=rng_v, target_max=np.array([13.0, 5.0]))]
+    elif d == "vector_tmin_outside":
+        gl = [mk(vector=True, function_range=rng_v, target_min=np.array([-5.0, -21.0]))]
+    elif d == "vector_tmax_series_outside":
+        gl = [mk(vector=True, function_range=rng_v,
+                 target_max=Timeseries(np.array(times, dtype=float), np.array([[5.0, 5.0], [5.0, 21.0], [5.0, 5.0]])))]
+    elif d == "ok_scalar":
+        gl = [mk(function_range=rng_s, target_max=5.0), mk(2, function_range=rng_s, target_min=-5.0)]
+    else:
+        gl = [mk(vector=True, function_range=rng_v, target_max=np.array([11.0, 5.0]), target_min=np.array([-5.0, -19.0]))]
+    goals_all[:] = gl
+    try:
+        ok = p.optimize()
+        return {"raised": False, "ok": bool(ok), "solvers_created": len(calls)}
+    except Exception as e:  # noqa: BLE001
+        return {"raised": True, "message": "%s: %s" % (type(e).__name__, str(e)[:150]), "solvers_created": len(calls)}
+
+
+def check_reject(ctx, c):
+    r = run_reject(c)
+    ill = c["defect"] in REJECT_DEFECTS
+    ctx.count("reject_" + ("ill_formed" if ill else "control"))
+    ctx.case_done(core.fingerprint(["reject", c["variant"], c["path"], c["defect"]]), ill)
+    if ill and (not r["raised"] or r["solvers_created"] > 0):
+        ctx.violation("validate/ill-formed-accepted", {"case": c, "outcome": r},
+                      what="%s with an ill-formed %s goal (%s) was %s" % (
+                          c["variant"], "path" if c["path"] else "point", c["defect"],
+                          "solved" if not r["raised"] else "rejected only after a solver had been created"))
+    elif not ill and (r["raised"] or not r.get("ok")):
+        ctx.violation("validate/well-formed-rejected", {"case": c, "outcome": r}, no_input=False,
+                      what="%s with a well-formed %s goal (%s) did not solve: %s" % (
+                          c["variant"], "path" if c["path"] else "point", c["defect"], r.get("message")))
+
+
 def run(ctx):
     import os
     replay = os.environ.get("VERIF_REPLAY")
@@ -374,5 +490,8 @@ def run(ctx):
             sig = "critical/not-met" if "critical_goal" in bad[0] else "envelope/left"
             ctx.violation(sig, {"case": c, "violations": bad[:5]},
                           what="a solution leaves the epsilon envelope / misses a critical goal: %s" % json.dumps(bad[0], default=str)[:300])
+    rj = [c for c in cases if c.get("k") == "reject"] if replay else reject_cases()
+    for c in rj:
+        check_reject(ctx, c)
     if not replay:
         conflict_probe(ctx)
